@@ -99,6 +99,12 @@ def handle : List String → String
     | some fx, some limit, some lph, some mask, some ka, some keys, some labs =>
       showSt (keys.foldl max 0 + 1) (run fx (init limit lph keys mask ka) labs)
     | _, _, _, _, _, _, _ => "bad-op"
+  | ["key", host, port, ssl] =>
+    match parseStr host, (if port == "-" then some none else port.toNat?.map some) with
+    | some h, some p =>
+      let k := endpointKey { host := h, explicitPort := p, ssl := parseBool ssl }
+      s!"{showStr k.1}|{k.2.1}|{showBool k.2.2}"
+    | _, _ => "bad-op"
   | _ => "bad-op"
 
 end Aio.Driver.C07
